@@ -124,7 +124,7 @@ def check(v, prop, families, extra_clause_props=()):
     for s in scns:
         fs = res.get(s['scn'], [])
         if s['status'] != 'ok':
-            v.add_failure(prop + '.run_completes', {'status': s['status'], 'family': s['family']},
+            v.add_failure(prop + ('.terminates' if prop == 'C12' else '.run_completes'), {'status': s['status'], 'family': s['family']},
                           'scenario did not run to quiescence (%s)' % s['status'], _replay(s))
         for clause, idx in fs:
             p = clause.split('.')[0]
